@@ -41,6 +41,7 @@
 (*   fixedtab counts / indices against tables of fixed size in the decoder *)
 (*   prodcap  product of two counts as an array capacity (GPOS 2.2/4/5/6)   *)
 (*   t2fan    steps executed by nested subroutine calls (fan^depth)          *)
+(*   cdrev    class definition ranges re-opened by a reversed range          *)
 (*   t2op     generator: every Type 2 operator with operands at extremes   *)
 (*   sum      aggregate limits: k records, each within its own limit       *)
 (*            (cmap 12 groups, coverage ranges, name records, kern         *)
@@ -329,29 +330,40 @@ FanBytes(r) == 3 * r.fan * r.depth + 60
 FanAccept(r) == r.depth <= 10
 FanTrouble(r) == FanAccept(r) /\ FanPow(r.fan, r.depth) > 64 * FanBytes(r) + 1048576
 
+(* cdrev: a class definition table in format 2 whose ranges are kept apart  *)
+(* by the test "start > end of the previous range" only.  A range with      *)
+(* end < start assigns nothing but resets that memory, so the next range    *)
+(* may cover the whole glyph space again: k pairs (full range, reversed     *)
+(* range) cost k * 65535 assignments for 12 k bytes.  Trouble: more work    *)
+(* than a budget proportional to the input (64 steps per byte + 2^20).      *)
+RevDom == [pairs : {1, 2, 16, 1000, 32767}]       \* 32767 pairs: the largest range count, 393 kB
+RevWork(r) == IF r.pairs >= 16384 THEN FanCap ELSE r.pairs * 65535
+RevAccept(r) == TRUE                                \* the pinned reader accepts every such table
+RevTrouble(r) == RevWork(r) > 64 * (12 * r.pairs + 4) + 1048576
+
 ---------------------------------------------------------------------------
 Names == {"dir", "cmap", "cmap4", "cmap4seg", "cmap12", "index", "cffpriv", "loca", "simple", "cover", "classdef", "gpos5",
-          "t2store", "t2stack", "sum", "sum32", "fixedtab", "prodcap", "t2op", "t2fan"}
+          "t2store", "t2stack", "sum", "sum32", "fixedtab", "prodcap", "t2op", "t2fan", "cdrev"}
 Dom(n) == CASE n = "dir" -> DirDom [] n = "cmap" -> CmapDom [] n = "cmap4" -> C4Dom [] n = "cmap4seg" -> C4SDom
             [] n = "cmap12" -> C12Dom [] n = "index" -> IdxDom [] n = "cffpriv" -> PrivDom [] n = "loca" -> LocaDom
             [] n = "simple" -> SimDom [] n = "cover" -> CovDom [] n = "classdef" -> ClsDom [] n = "gpos5" -> G5Dom
             [] n = "t2store" -> T2SDom [] n = "t2stack" -> T2KDom [] n = "sum" -> SumDom
             [] n = "sum32" -> Sum32Dom [] n = "fixedtab" -> FixDom [] n = "prodcap" -> ProdDom [] n = "t2op" -> T2ODom
-            [] n = "t2fan" -> FanDom
+            [] n = "t2fan" -> FanDom [] n = "cdrev" -> RevDom
 Accept == CASE g = "dir" -> DirAccept(x) [] g = "cmap" -> CmapAccept(x) [] g = "cmap4" -> C4Accept(x)
             [] g = "cmap4seg" -> C4SAccept(x) [] g = "cmap12" -> C12Accept(x) [] g = "index" -> IdxAccept(x)
             [] g = "cffpriv" -> PrivAccept(x) [] g = "loca" -> LocaAccept(x) [] g = "simple" -> SimAccept(x)
             [] g = "cover" -> CovAccept(x) [] g = "classdef" -> ClsAccept(x) [] g = "gpos5" -> G5Accept(x)
             [] g = "t2store" -> T2SAccept(x) [] g = "t2stack" -> T2KAccept(x) [] g = "sum" -> SumAccept(x)
             [] g = "sum32" -> Sum32Accept(x) [] g = "fixedtab" -> FixAccept(x) [] g = "prodcap" -> ProdAccept(x)
-            [] g = "t2op" -> TRUE [] g = "t2fan" -> FanAccept(x)
+            [] g = "t2op" -> TRUE [] g = "t2fan" -> FanAccept(x) [] g = "cdrev" -> RevAccept(x)
 Trouble == CASE g = "dir" -> DirTrouble(x) [] g = "cmap" -> CmapTrouble(x) [] g = "cmap4" -> C4Trouble(x)
             [] g = "cmap4seg" -> C4STrouble(x) [] g = "cmap12" -> C12Trouble(x) [] g = "index" -> IdxTrouble(x)
             [] g = "cffpriv" -> PrivTrouble(x) [] g = "loca" -> LocaTrouble(x) [] g = "simple" -> SimTrouble(x)
             [] g = "cover" -> CovTrouble(x) [] g = "classdef" -> ClsTrouble(x) [] g = "gpos5" -> G5Trouble(x)
             [] g = "t2store" -> T2STrouble(x) [] g = "t2stack" -> T2KTrouble(x) [] g = "sum" -> SumTrouble(x)
             [] g = "sum32" -> Sum32Trouble(x) [] g = "fixedtab" -> FixTrouble(x) [] g = "prodcap" -> ProdTrouble(x)
-            [] g = "t2op" -> FALSE [] g = "t2fan" -> FanTrouble(x)
+            [] g = "t2op" -> FALSE [] g = "t2fan" -> FanTrouble(x) [] g = "cdrev" -> RevTrouble(x)
 
 Init == g \in Names /\ x \in Dom(g)
 Next == UNCHANGED vars
@@ -372,7 +384,7 @@ Key == CASE g = "dir" -> x.o1 + 3 * x.l1 + 5 * x.o2 + 7 * x.l2 + x.F
          [] g = "gpos5" -> x.lig + 3 * x.mcc + 5 * x.comp
          [] OTHER -> 0
 \* small guards are replayed completely
-Sampled == Sample > 0 /\ (g \in {"simple", "gpos5", "classdef", "t2store", "t2stack", "sum", "fixedtab", "cffpriv", "t2fan"}
+Sampled == Sample > 0 /\ (g \in {"simple", "gpos5", "classdef", "t2store", "t2stack", "sum", "fixedtab", "cffpriv", "t2fan", "cdrev"}
                           \/ (g = "sum32" /\ (x.a \in {-8, -1, 1, 6, 7} \/ x.b \in {-8, -1, 6, 7}))
                           \/ (g = "prodcap" /\ (x.c1 \in {0, 1, 6, 7} /\ x.c2 \in {0, 1, 6, 7}) /\ x.avail \in {0, 2, 12})
                           \/ (g = "t2op" /\ (x.op \in T2StackOps \/ (x.a + 2 * x.b + x.d + x.op) % 4 = 0))
